@@ -303,6 +303,64 @@ theorem C15_trapz_bv_error (f : ℝ → ℝ) (lo hi : ℝ → ℝ → ℝ)
     mul_le_mul_of_nonneg_left hV hh
   linarith
 
+/-- The variation hypothesis discharged for a monotone integrand: if `f` is antitone (or monotone) on `[0,1]`, the
+oscillation sum telescopes to `|f 0 − f 1|` — the total variation — so `|T − ∫₀¹ f| ≤ h·|f 0 − f 1|` with no
+further hypothesis (integrability follows from monotonicity). -/
+theorem C15_trapz_monotone_error (f : ℝ → ℝ)
+    (hf : AntitoneOn f (Set.Icc 0 1) ∨ MonotoneOn f (Set.Icc 0 1)) (n : ℕ) (hn : 2 ≤ n) :
+    |trapz ((linspace01 n).map f) (linspace01 n) - ∫ x in (0:ℝ)..1, f x|
+      ≤ (1 / ((n - 1 : ℕ) : ℝ)) * |f 0 - f 1| := by
+  -- work with the clamped extension `g = f ∘ clamp01`, which is monotone on all of ℝ and agrees with `f` on `[0,1]`
+  set g : ℝ → ℝ := fun x => f (clamp01 x) with hg
+  have hgf : ∀ x ∈ Set.Icc (0:ℝ) 1, g x = f x := fun x hx => by simp only [hg, clamp01_of_mem hx]
+  obtain ⟨m, rfl⟩ : ∃ m, n = m + 2 := ⟨n - 2, by omega⟩
+  have hm : m + 2 - 1 = m + 1 := by omega
+  have hh : (0:ℝ) ≤ 1 / ((m + 1 : ℕ) : ℝ) := by positivity
+  obtain ⟨t0, ts, heq, ht0, hlast, hp, hc⟩ := uniform_grid_facts (1 / ((m + 1 : ℕ) : ℝ)) hh (m + 1) 0
+  have h0 : t0 = 0 := by rw [ht0]; simp
+  have hl : (t0 :: ts).getLast (by simp) = 1 := by rw [hlast]; push_cast; field_simp; ring
+  have hlin : linspace01 (m + 2) = t0 :: ts := by rw [C15_linspace_uniform _ hn, hm]; exact heq
+  -- grid points lie in [0,1]
+  have hmem : ∀ t ∈ t0 :: ts, t ∈ Set.Icc (0:ℝ) 1 := by
+    intro t ht
+    constructor
+    · rcases List.mem_cons.mp ht with rfl | ht'
+      · rw [h0]
+      · have := (List.pairwise_cons.mp hp).1 t ht'; rw [h0] at this; exact this
+    · have := sorted_le_getLast _ hp (by simp) t ht; rw [hl] at this; exact this
+  have hmap : (t0 :: ts).map f = (t0 :: ts).map g := List.map_congr_left (fun t ht => (hgf t (hmem t ht)).symm)
+  have hint : ∫ x in (0:ℝ)..1, f x = ∫ x in (0:ℝ)..1, g x := by
+    apply intervalIntegral.integral_congr
+    intro x hx
+    rw [Set.uIcc_of_le (by norm_num : (0:ℝ) ≤ 1)] at hx
+    exact (hgf x hx).symm
+  have hg0 : g 0 = f 0 := hgf 0 ⟨le_refl _, by norm_num⟩
+  have hg1 : g 1 = f 1 := hgf 1 ⟨by norm_num, le_refl _⟩
+  rw [hlin, hmap, hint, hm, ← hg0, ← hg1]
+  rcases hf with hf | hf
+  · have hanti : Antitone g := fun a b hab => hf (clamp01_mem a) (clamp01_mem b) (clamp01_mono hab)
+    have hb : ∀ a b x, a ≤ x → x ≤ b → (fun _ b => g b) a b ≤ g x ∧ g x ≤ (fun a _ => g a) a b :=
+      fun a b x h1 h2 => ⟨hanti h2, hanti h1⟩
+    have hii : ∀ a b, IntervalIntegrable g MeasureTheory.volume a b := fun a b => hanti.intervalIntegrable
+    have h1 := trapz_cell_error g _ _ hii hb t0 ts hp
+    have h2 := cellErr_le (fun _ b => g b) (fun a _ => g a) _ (fun a b hab => hanti hab) t0 ts hp hc
+    rw [oscSum_antitone g t0 ts, hl] at h2
+    rw [hl] at h1
+    subst h0
+    have : g 0 - g 1 ≤ |g 0 - g 1| := le_abs_self _
+    nlinarith
+  · have hmono : Monotone g := fun a b hab => hf (clamp01_mem a) (clamp01_mem b) (clamp01_mono hab)
+    have hb : ∀ a b x, a ≤ x → x ≤ b → (fun a _ => g a) a b ≤ g x ∧ g x ≤ (fun _ b => g b) a b :=
+      fun a b x h1 h2 => ⟨hmono h1, hmono h2⟩
+    have hii : ∀ a b, IntervalIntegrable g MeasureTheory.volume a b := fun a b => hmono.intervalIntegrable
+    have h1 := trapz_cell_error g _ _ hii hb t0 ts hp
+    have h2 := cellErr_le (fun a _ => g a) (fun _ b => g b) _ (fun a b hab => hmono hab) t0 ts hp hc
+    rw [oscSum_monotone g t0 ts, hl] at h2
+    rw [hl] at h1
+    subst h0
+    have : g 1 - g 0 ≤ |g 0 - g 1| := by rw [abs_sub_comm]; exact le_abs_self _
+    nlinarith
+
 /-- The same bound for the model: with `g t = ρ(r(t))·dist` the code's result is `100·T(g)`, and
 `∫₀¹ g dt = ∫₀^dist ρ ds` is the column density, so `|slant_depth − 100·∫ρ ds| ≤ 100·V/(n−1)` where
 `V` bounds the oscillation sum of `g` (i.e. `dist ×` the variation of the density along the chord). -/
@@ -326,6 +384,59 @@ theorem C15_slant_discretisation (M : EarthModel) (e u : EV3) (step : ℝ)
   rw [← mul_sub, abs_mul]
   have : |(100:ℝ)| = 100 := abs_of_pos (by norm_num)
   rw [this]
+  exact mul_le_mul_of_nonneg_left h (by norm_num)
+
+/-- PREM density on the outermost shell `[6368 km, 6371 km)` (the 3 km the endpoints of this package live in) -/
+theorem C15_prem_top_shell (r : ℝ) (h1 : 6368000 ≤ r) (h2 : r < prem.radius) : prem.density r = 102 / 100 := by
+  obtain ⟨s, hs, hh, hd, _⟩ := C15_density_pos_inside r (by linarith) h2
+  rw [hd]
+  rw [prem_shells_explicit] at hs
+  rw [prem_radius] at h2
+  simp only [List.mem_cons, List.not_mem_nil, or_false] at hs
+  obtain ⟨hlo, hhi⟩ := hh
+  rcases hs with rfl | rfl | rfl | rfl | rfl | rfl | rfl | rfl | rfl | rfl <;> simp only at hlo hhi <;>
+    first
+      | (exfalso; linarith)
+      | (simp [evalPoly, evalPolyFrom]; norm_num)
+
+/-- `prem_variation`, discharged for one shell: for a chord whose interior samples all lie in the outermost PREM
+shell (every chord of a near-surface, shallow-dipping neutrino), the integrand `ρ(r(t))·dist` is the step
+`1.02·dist` on `[0,1)` and `0` at the exit node, hence antitone with total variation `1.02·dist`, and
+`|slant_depth − 100·∫ρ ds| ≤ 100·h·1.02·dist` with `h = 1/(n−1)` — no variation hypothesis left.
+(The general PREM chord crosses several shells: piecewise monotone with finitely many jumps; that case keeps the
+hypothesis `hV` of `C15_trapz_bv_error` and is checked numerically by the search with the computed variation.) -/
+theorem C15_prem_variation_top_shell (e u : EV3) (hu : dot3 u u = 1) (step : ℝ)
+    (hD : 0 < chordDisc prem.radius e u) (hd : 0 < chordDist prem.radius e u)
+    (hn : 2 ≤ nSteps (chordDist prem.radius e u) step)
+    (hin : ∀ t : ℝ, 0 ≤ t → t < 1 → 6368000 ≤ sampleRadius e u (chordDist prem.radius e u) t ∧
+        sampleRadius e u (chordDist prem.radius e u) t < prem.radius) :
+    |prem.slantCore e u step
+        - 100 * ∫ t in (0:ℝ)..1, prem.density (sampleRadius e u (chordDist prem.radius e u) t) * chordDist prem.radius e u|
+      ≤ 100 * ((1 / ((nSteps (chordDist prem.radius e u) step - 1 : ℕ) : ℝ)) * (102 / 100 * chordDist prem.radius e u)) := by
+  set dist := chordDist prem.radius e u with hdist
+  set f : ℝ → ℝ := fun t => prem.density (sampleRadius e u dist t) * dist with hf
+  have hval : ∀ t, 0 ≤ t → t < 1 → f t = 102 / 100 * dist := by
+    intro t h0 h1
+    simp only [hf]
+    rw [C15_prem_top_shell _ (hin t h0 h1).1 (hin t h0 h1).2]
+  have hone : f 1 = 0 := by
+    simp only [hf]
+    rw [hdist, C15_exit_node_outside e u hu hD.le]; ring
+  have hanti : AntitoneOn f (Set.Icc 0 1) := by
+    intro a ha b hb hab
+    rcases eq_or_lt_of_le hb.2 with rfl | hb1
+    · rw [hone]
+      rcases eq_or_lt_of_le ha.2 with rfl | ha1
+      · rw [hone]
+      · rw [hval a ha.1 ha1]; exact mul_nonneg (by norm_num) hd.le
+    · rw [hval b hb.1 hb1, hval a ha.1 (lt_of_le_of_lt hab hb1)]
+  have h := C15_trapz_monotone_error f (Or.inl hanti) _ hn
+  have habs : |102 / 100 * dist| = 102 / 100 * dist := abs_of_nonneg (mul_nonneg (by norm_num) hd.le)
+  rw [hval 0 (le_refl _) (by norm_num), hone, sub_zero, habs] at h
+  have h1 : ¬ chordDisc prem.radius e u ≤ 0 := not_le.mpr hD
+  have h2 : ¬ chordDist prem.radius e u ≤ 0 := not_le.mpr hd
+  simp only [EarthModel.slantCore, h1, h2, if_false, EarthModel.chordSamples]
+  rw [← mul_sub, abs_mul, abs_of_pos (by norm_num : (0:ℝ) < 100)]
   exact mul_le_mul_of_nonneg_left h (by norm_num)
 
 /-- Deeper chords are longer: for an endpoint strictly inside the sphere the chord length is strictly
